@@ -168,6 +168,8 @@ def execute(cases, workdir):
         stalled.append(sid[-1])
         idx = [i for i, l in enumerate(remaining) if l.split(' ', 1)[0] == sid[-1]]
         remaining = remaining[idx[0] + 1:] if idx else []
+        if len(stalled) >= 3:
+            remaining = []          # enough evidence; the rest of the campaign is not run
     if stalled:
         # keep only the CSTs of the cases that completed (the stalled ones have no implementation result to compare)
         keep, skip = [], False
